@@ -13,7 +13,10 @@
       reference handed in): exactly the wires the name map registers whose relative name the
       patterns select (get_hwires_entries_INSIDE_href, get_hwires_roots_netlist_INSIDE);
    4. a concrete heap (ex3 of HierCablesEx.v): every kind of root, a collection, patterns honoured
-      from the netlist and ignored from an Instance root (what the code does: finding C13-K6). *)
+      from the netlist, from an Instance root (full names) and from a reference to a non-top instance
+      (relative names) - the code since fix 1630eaa; the former witness of finding C13-K6 is kept as
+      a regression example. References found directly pass the test dm (Hier/TraceRoots.v,
+      direct_match): the statements about them are filter laws. *)
 From Coq Require Import List Arith NArith Bool Lia.
 From SV Require Import Base.Base IR.State Proofs.Inv1a Proofs.Inv2a Hier.Paths Hier.Enum Hier.Trace Hier.Conn
   Hier.TraceRoots Proofs.HierValid Proofs.HierEnum Proofs.HierUniq Proofs.HierOcc Proofs.HierClosure Proofs.HierTrace
@@ -22,13 +25,13 @@ Import ListNotations.
 
 (* ------------------------------------------------------------------------------------------ *)
 (* the end of the dispatch *)
-Lemma finish_In s pat d named h :
-  In h (finish s pat d named) <->
-  In h d \/ In h (map snd (filter (name_ok s pat) (nfirst [] named))).
-Proof. unfold finish. apply href_union_In. Qed.
+Lemma finish_In s pat dm d named h :
+  In h (finish s pat dm d named) <->
+  (In h d /\ dm h = true) \/ In h (map snd (filter (name_ok s pat) (nfirst [] named))).
+Proof. unfold finish. rewrite href_union_In, filter_In. reflexivity. Qed.
 
-Lemma finish_nodup s pat d named : NoDup d -> NoDup (finish s pat d named).
-Proof. intro H. unfold finish. apply href_union_nodup. exact H. Qed.
+Lemma finish_nodup s pat dm d named : NoDup d -> NoDup (finish s pat dm d named).
+Proof. intro H. unfold finish. apply href_union_nodup. apply NoDup_filter. exact H. Qed.
 
 Lemma nmem_map k h a : nmem h (map (pair k) a) = href_mem h a.
 Proof. induction a as [|c a IH]; cbn; [reflexivity|]. rewrite IH. reflexivity. Qed.
@@ -58,8 +61,8 @@ Qed.
 
 (* ------------------------------------------------------------------------------------------ *)
 (* 1. no duplicates, any heap *)
-Theorem get_hwires_roots_nodup s x r pat usum roots l :
-  get_hwires_roots s x r pat usum roots = Some l -> NoDup l.
+Theorem get_hwires_roots_nodup s x r pat dpat usum roots l :
+  get_hwires_roots s x r pat dpat usum roots = Some l -> NoDup l.
 Proof.
   unfold get_hwires_roots, with_roots, get_hwires_entries. intro H.
   destruct (expand_roots s roots) as [es|]; [|discriminate].
@@ -68,8 +71,8 @@ Proof.
   inversion H. apply finish_nodup, result_nodup.
 Qed.
 
-Theorem get_hcables_roots_nodup s x r pat usum roots l :
-  get_hcables_roots s x r pat usum roots = Some l -> NoDup l.
+Theorem get_hcables_roots_nodup s x r pat dpat usum roots l :
+  get_hcables_roots s x r pat dpat usum roots = Some l -> NoDup l.
 Proof.
   unfold get_hcables_roots, with_roots, get_hcables_entries. intro H.
   destruct (expand_roots s roots) as [es|]; [|discriminate].
@@ -78,8 +81,8 @@ Proof.
   inversion H. apply finish_nodup, result_nodup.
 Qed.
 
-Theorem get_hpins_roots_nodup s r pat roots l :
-  get_hpins_roots s r pat roots = Some l -> NoDup l.
+Theorem get_hpins_roots_nodup s r pat dpat roots l :
+  get_hpins_roots s r pat dpat roots = Some l -> NoDup l.
 Proof.
   unfold get_hpins_roots, with_roots, get_hpins_entries. intro H.
   destruct (expand_roots s roots) as [es|]; [|discriminate].
@@ -87,8 +90,8 @@ Proof.
   inversion H. apply finish_nodup, href_union_nodup. constructor.
 Qed.
 
-Theorem get_hports_roots_nodup s r pat roots l :
-  get_hports_roots s r pat roots = Some l -> NoDup l.
+Theorem get_hports_roots_nodup s r pat dpat roots l :
+  get_hports_roots s r pat dpat roots = Some l -> NoDup l.
 Proof.
   unfold get_hports_roots, with_roots, get_hports_entries. intro H.
   destruct (expand_roots s roots) as [es|]; [|discriminate].
@@ -134,13 +137,13 @@ Qed.
 
 (* ------------------------------------------------------------------------------------------ *)
 (* 3. INSIDE from an instance reference that goes through the name map (any heap) *)
-Theorem get_hwires_entries_INSIDE_href : forall s r pat usum it rest l0,
+Theorem get_hwires_entries_INSIDE_href : forall s r pat dm usum it rest l0,
   is_valid s (it :: rest) = true -> kind_of s it = Some KInstance ->
   hwires_below s r (it :: rest) = Some l0 ->
-  exists l, get_hwires_entries s SInside r pat usum [(false, it :: rest)] = Some l /\ NoDup l /\
+  exists l, get_hwires_entries s SInside r pat dm usum [(false, it :: rest)] = Some l /\ NoDup l /\
             (forall h, In h l <-> In h l0 /\ name_ok s pat (length rest, h) = true).
 Proof.
-  intros s r pat usum it rest l0 Hv Hk Hl.
+  intros s r pat dm usum it rest l0 Hv Hk Hl.
   unfold get_hwires_entries. cbn [collect]. unfold hw_entry. rewrite Hv. cbn [negb].
   rewrite Hk. unfold href in *. rewrite Hl. cbn [option_map trip_app trip0 app].
   unfold hw_close, close_fuel. cbn [wl_close length plus rev].
@@ -149,17 +152,18 @@ Proof.
   rewrite named_single_In. cbn [href_union In]. tauto.
 Qed.
 
-Theorem get_hwires_roots_netlist_INSIDE : forall s n t r pat usum l0,
+Theorem get_hwires_roots_netlist_INSIDE : forall s n t r pat dpat usum l0,
   kind_of s n = Some KNetlist -> top s n = Some t -> is_valid s [t] = true ->
   get_hwires_netlist s n r = Some l0 ->
-  exists l, get_hwires_roots s SInside r pat usum [RObj (QId n)] = Some l /\ NoDup l /\
+  exists l, get_hwires_roots s SInside r pat dpat usum [RObj (QId n)] = Some l /\ NoDup l /\
             (forall h, In h l <-> In h l0 /\ name_ok s pat (0, h) = true).
 Proof.
-  intros s n t r pat usum l0 Hk Ht Hv Hl.
+  intros s n t r pat dpat usum l0 Hk Ht Hv Hl.
   assert (Hkt : kind_of s t = Some KInstance).
   { rewrite is_valid_single in Hv. destruct (kind_of s t) as [[]|]; try discriminate. reflexivity. }
   unfold get_hwires_netlist, netlist_contents, top_href in Hl. rewrite Ht, Hv in Hl.
-  destruct (get_hwires_entries_INSIDE_href s r pat usum t [] l0 Hv Hkt Hl) as (l & El & Nl & Sl).
+  destruct (get_hwires_entries_INSIDE_href s r pat (direct_match s dpat [RObj (QId n)]) usum t [] l0 Hv Hkt Hl)
+    as (l & El & Nl & Sl).
   exists l. split; [|split; [exact Nl|exact Sl]].
   unfold get_hwires_roots, with_roots, expand_roots. cbn [rev app flat_opt fold_right expand_root].
   rewrite Hk. unfold top_href. rewrite Ht. cbn [app]. exact El.
@@ -167,18 +171,18 @@ Qed.
 
 (* the netlist root, recursive: every hierarchical wire of the design (C11's enumeration) whose name
    the patterns select, each once *)
-Theorem get_hwires_roots_netlist_recursive : forall s n t pat usum,
+Theorem get_hwires_roots_netlist_recursive : forall s n t pat dpat usum,
   Inv1a s -> WFk s -> acyclic s ->
   kind_of s n = Some KNetlist -> top s n = Some t -> is_valid s [t] = true ->
-  exists l, get_hwires_roots s SInside true pat usum [RObj (QId n)] = Some l /\ NoDup l /\
+  exists l, get_hwires_roots s SInside true pat dpat usum [RObj (QId n)] = Some l /\ NoDup l /\
     (forall h, In h l <->
        (exists w c x p, h = w :: c :: x :: p /\ is_rpath s t (x :: p) /\
                         In c (cables_of s x) /\ In w (kids s RWires c)) /\
        name_ok s pat (0, h) = true).
 Proof.
-  intros s n t pat usum I W A Hk Ht Hv.
+  intros s n t pat dpat usum I W A Hk Ht Hv.
   destruct (enum_wires_spec s n t I W A Ht Hv) as (l0 & E0 & _ & S0).
-  destruct (get_hwires_roots_netlist_INSIDE s n t true pat usum l0 Hk Ht Hv E0) as (l & El & Nl & Sl).
+  destruct (get_hwires_roots_netlist_INSIDE s n t true pat dpat usum l0 Hk Ht Hv E0) as (l & El & Nl & Sl).
   exists l. split; [exact El|]. split; [exact Nl|]. intro h. rewrite Sl, S0. reflexivity.
 Qed.
 
@@ -193,51 +197,53 @@ Section RootsAll.
   Hypothesis C : WFc s.
   Hypothesis Hroot : is_root s t.
 
-  Theorem get_hwires_entries_ALL : forall n U r pat es y st nm,
+  Theorem get_hwires_entries_ALL : forall n U r pat dm es y st nm,
     acyclic s -> top s n = Some t -> all_hwires s n = Some U ->
     collect (hw_entry s SAll r) es = Some (y, st, nm) ->
     (forall a, In a st -> hpin_occ s t a) ->
-    exists l, get_hwires_entries s SAll r pat (pin_weight s U) es = Some l /\ NoDup l /\
-              (forall b, In b l <-> In b y \/
-                                    exists a x, In a st /\ In x (nb_sel s SAll a) /\ Conn.conn s t x b).
+    exists l, get_hwires_entries s SAll r pat dm (pin_weight s U) es = Some l /\ NoDup l /\
+              (forall b, In b l <-> dm b = true /\
+                                    (In b y \/
+                                     exists a x, In a st /\ In x (nb_sel s SAll a) /\ Conn.conn s t x b)).
   Proof.
-    intros n U r pat es y st nm A Ht HU Ec Hs.
+    intros n U r pat dm es y st nm A Ht HU Ec Hs.
     pose proof (collect_all_named _ _ _ _ _ _ Ec) as Hn. subst nm.
     destruct (hw_close_ALL_reach s t I1 K C n U st A Ht HU Hs) as (found & Ef & Nf & Sf).
     unfold get_hwires_entries. rewrite Ec. unfold href in *. rewrite Ef.
     eexists. split; [reflexivity|]. split; [apply finish_nodup, result_nodup|].
     intro b. rewrite finish_In. cbn [nfirst filter map In]. rewrite result_In, <- in_rev, Sf, reach_split.
     split.
-    - intros [[H|(a & Ha & Hr)]|[]]; [left; exact H|right].
+    - intros [([H|(a & Ha & Hr)] & Hd)|[]]; (split; [exact Hd|]); [left; exact H|right].
       apply (pin_reach_conn s t I1 C a b (Hs a Ha)) in Hr as (x & Hx & Hc). exists a, x. auto.
-    - intros [H|(a & x & Ha & Hx & Hc)]; left; [left; exact H|right].
+    - intros (Hd & [H|(a & x & Ha & Hx & Hc)]); left; (split; [|exact Hd]); [left; exact H|right].
       exists a. split; [exact Ha|]. apply (pin_reach_conn s t I1 C a b (Hs a Ha)). exists x. auto.
   Qed.
 
   (* union law: searching two collections at once = the union of the two answers *)
-  Theorem get_hwires_entries_ALL_union : forall n U r pat es1 es2 y1 st1 nm1 y2 st2 nm2,
+  Theorem get_hwires_entries_ALL_union : forall n U r pat dm es1 es2 y1 st1 nm1 y2 st2 nm2,
     acyclic s -> top s n = Some t -> all_hwires s n = Some U ->
     collect (hw_entry s SAll r) es1 = Some (y1, st1, nm1) -> (forall a, In a st1 -> hpin_occ s t a) ->
     collect (hw_entry s SAll r) es2 = Some (y2, st2, nm2) -> (forall a, In a st2 -> hpin_occ s t a) ->
     exists l1 l2 l,
-      get_hwires_entries s SAll r pat (pin_weight s U) es1 = Some l1 /\
-      get_hwires_entries s SAll r pat (pin_weight s U) es2 = Some l2 /\
-      get_hwires_entries s SAll r pat (pin_weight s U) (es1 ++ es2) = Some l /\ NoDup l /\
+      get_hwires_entries s SAll r pat dm (pin_weight s U) es1 = Some l1 /\
+      get_hwires_entries s SAll r pat dm (pin_weight s U) es2 = Some l2 /\
+      get_hwires_entries s SAll r pat dm (pin_weight s U) (es1 ++ es2) = Some l /\ NoDup l /\
       (forall b, In b l <-> In b l1 \/ In b l2).
   Proof.
-    intros n U r pat es1 es2 y1 st1 nm1 y2 st2 nm2 A Ht HU E1 H1 E2 H2.
-    destruct (get_hwires_entries_ALL n U r pat es1 _ _ _ A Ht HU E1 H1) as (l1 & L1 & _ & S1).
-    destruct (get_hwires_entries_ALL n U r pat es2 _ _ _ A Ht HU E2 H2) as (l2 & L2 & _ & S2).
+    intros n U r pat dm es1 es2 y1 st1 nm1 y2 st2 nm2 A Ht HU E1 H1 E2 H2.
+    destruct (get_hwires_entries_ALL n U r pat dm es1 _ _ _ A Ht HU E1 H1) as (l1 & L1 & _ & S1).
+    destruct (get_hwires_entries_ALL n U r pat dm es2 _ _ _ A Ht HU E2 H2) as (l2 & L2 & _ & S2).
     assert (H12 : forall a, In a (st1 ++ st2) -> hpin_occ s t a).
     { intros a Ha. apply in_app_or in Ha as [Ha|Ha]; auto. }
-    destruct (get_hwires_entries_ALL n U r pat (es1 ++ es2) _ _ _ A Ht HU (collect_app _ _ _ _ _ _ _ _ _ E1 E2) H12)
+    destruct (get_hwires_entries_ALL n U r pat dm (es1 ++ es2) _ _ _ A Ht HU (collect_app _ _ _ _ _ _ _ _ _ E1 E2) H12)
       as (l & L & N & S).
     exists l1, l2, l. repeat split; try assumption.
-    - intro H. apply S in H as [H|(a & x & Ha & Hx & Hc)].
-      + apply in_app_or in H as [H|H]; [left; apply S1|right; apply S2]; left; exact H.
-      + apply in_app_or in Ha as [Ha|Ha]; [left; apply S1|right; apply S2]; right; exists a, x; auto.
+    - intro H. apply S in H as (Hd & [H|(a & x & Ha & Hx & Hc)]).
+      + apply in_app_or in H as [H|H]; [left; apply S1|right; apply S2]; (split; [exact Hd|left; exact H]).
+      + apply in_app_or in Ha as [Ha|Ha]; [left; apply S1|right; apply S2];
+          (split; [exact Hd|right; exists a, x; auto]).
     - intro H. apply S. destruct H as [H|H]; [apply S1 in H|apply S2 in H];
-        destruct H as [H|(a & x & Ha & Hx & Hc)];
+        destruct H as (Hd & [H|(a & x & Ha & Hx & Hc)]); (split; [exact Hd|]);
         try (left; apply in_or_app; auto; fail);
         right; exists a, x; (split; [apply in_or_app; auto|auto]).
   Qed.
@@ -258,16 +264,16 @@ Section RootsAll.
 
   (* an instance reference (marked or not), selection ALL: every wire at or below the instance, and
      the nets of the wires attached - inside or outside - to every pin at or below it *)
-  Theorem get_hwires_ALL_instance : forall n U r pat bp x p,
+  Theorem get_hwires_ALL_instance : forall n U r pat dm bp x p,
     acyclic s -> top s n = Some t -> all_hwires s n = Some U -> is_rpath s t (x :: p) ->
     exists l ps, walk s keep_all (depth_fuel s) (x :: p) = Some ps /\
       (forall q, In q ps <-> ext s keep_all (x :: p) q) /\
-      get_hwires_entries s SAll r pat (pin_weight s U) [(bp, x :: p)] = Some l /\ NoDup l /\
-      (forall b, In b l <->
-         (exists q, In q ps /\ In b (hwires_at s q)) \/
-         (exists q a y, In q ps /\ In a (hpins_at s q) /\ In y (nb_sel s SAll a) /\ Conn.conn s t y b)).
+      get_hwires_entries s SAll r pat dm (pin_weight s U) [(bp, x :: p)] = Some l /\ NoDup l /\
+      (forall b, In b l <-> dm b = true /\
+         ((exists q, In q ps /\ In b (hwires_at s q)) \/
+          (exists q a y, In q ps /\ In a (hpins_at s q) /\ In y (nb_sel s SAll a) /\ Conn.conn s t y b))).
   Proof.
-    intros n U r pat bp x p A Ht HU Hp.
+    intros n U r pat dm bp x p A Ht HU Hp.
     assert (Hv : is_valid s (x :: p) = true).
     { apply (is_valid_iff s _ I1 I2 K). apply hr_inst with t. split; assumption. }
     assert (Hk : kind_of s x = Some KInstance) by (apply (path_head_kind s K t x p); split; assumption).
@@ -284,13 +290,13 @@ Section RootsAll.
     { intros a Ha. rewrite app_nil_r in Ha. apply in_flat_map in Ha as (q & Hq & Ha).
       apply (hpins_at_occ q a); [|exact Ha]. apply (ext_rpath_gen keep_all (x :: p)); [|exact Hp].
       apply Sps. exact Hq. }
-    destruct (get_hwires_entries_ALL n U r pat _ _ _ _ A Ht HU Ec Hs) as (l & El & Nl & Sl).
+    destruct (get_hwires_entries_ALL n U r pat dm _ _ _ _ A Ht HU Ec Hs) as (l & El & Nl & Sl).
     exists l, ps. split; [reflexivity|]. split; [exact Sps|]. split; [exact El|]. split; [exact Nl|].
     intro b. rewrite Sl, !app_nil_r. split.
-    - intros [H|(a & y & Ha & Hy & Hc)].
+    - intros (Hd & [H|(a & y & Ha & Hy & Hc)]); (split; [exact Hd|]).
       + left. apply in_flat_map in H. exact H.
       + right. apply in_flat_map in Ha as (q & Hq & Ha). exists q, a, y. auto.
-    - intros [(q & Hq & H)|(q & a & y & Hq & Ha & Hy & Hc)].
+    - intros (Hd & [(q & Hq & H)|(q & a & y & Hq & Ha & Hy & Hc)]); (split; [exact Hd|]).
       + left. apply in_flat_map. exists q. auto.
       + right. exists a, y. split; [apply in_flat_map; exists q; auto|auto].
   Qed.
@@ -306,54 +312,70 @@ Definition name_1 : str := [91; 49; 93]%N.   (* "[1]" *)
 Definition pat_exact (p : str) (nm : str) : bool := str_eqb p nm.
 
 Example ex3_roots_netlist_recursive :
-  get_hwires_roots ex3 SInside true pat_any ex3_u [RObj (QId 0)]
+  get_hwires_roots ex3 SInside true pat_any pat_any ex3_u [RObj (QId 0)]
   = Some [[12; 11; 14]; [13; 11; 14]; [7; 6; 10; 14]; [8; 6; 10; 14]].
 Proof. vm_compute. reflexivity. Qed.
 
 Example ex3_roots_netlist_flat :
-  get_hwires_roots ex3 SInside false pat_any ex3_u [RObj (QId 0)] = Some [[12; 11; 14]; [13; 11; 14]].
+  get_hwires_roots ex3 SInside false pat_any pat_any ex3_u [RObj (QId 0)] = Some [[12; 11; 14]; [13; 11; 14]].
 Proof. vm_compute. reflexivity. Qed.
 
 (* patterns are honoured from the netlist ... *)
 Example ex3_roots_netlist_pattern :
-  get_hwires_roots ex3 SInside true (pat_exact name_1) ex3_u [RObj (QId 0)] = Some [[13; 11; 14]].
+  get_hwires_roots ex3 SInside true (pat_exact name_1) (pat_exact name_1) ex3_u [RObj (QId 0)] = Some [[13; 11; 14]].
 Proof. vm_compute. reflexivity. Qed.
 
-(* ... and ignored from an Instance / Definition / Library root (the code's behaviour, C13-K6) *)
-Example ex3_roots_instance_ignores_pattern :
-  get_hwires_roots ex3 SInside false (pat_exact name_1) ex3_u [RObj (QId 10)]
-  = Some [[7; 6; 10; 14]; [8; 6; 10; 14]].
+(* ... and, since fix 1630eaa, from an Instance / Definition / Library root as well: against the FULL
+   name of each reference found. The former witness of finding C13-K6 (pattern "[1]", Instance root
+   10: the code returned both wires of the cell, ignoring the pattern) now answers nothing - the
+   wires are called "/[0]" "/[1]" - and the pattern "/[1]" selects the one wire *)
+Definition name_s1 : str := [47; 91; 49; 93]%N.   (* "/[1]" *)
+
+Example ex3_roots_instance_pattern_regression :
+  get_hwires_roots ex3 SInside false (pat_exact name_1) (pat_exact name_1) ex3_u [RObj (QId 10)] = Some [].
 Proof. vm_compute. reflexivity. Qed.
+
+Example ex3_roots_instance_pattern :
+  get_hwires_roots ex3 SInside false (pat_exact name_s1) (pat_exact name_s1) ex3_u [RObj (QId 10)]
+  = Some [[8; 6; 10; 14]].
+Proof. vm_compute. reflexivity. Qed.
+
+(* a reference to the NON-TOP instance 10, selection ALL: a wire below it is matched under its name
+   relative to that instance ("[1]"), a wire that is not below it under its full name ("[1]" too) *)
+Example ex3_roots_href_all_pattern :
+  exists l, get_hwires_roots ex3 SAll false (pat_exact name_1) (pat_exact name_1) ex3_u [RHref [10; 14]] = Some l /\
+            length l = 2 /\ In [8; 6; 10; 14] l /\ In [13; 11; 14] l.
+Proof. eexists. split; [vm_compute; reflexivity|]. cbn. auto. Qed.
 
 Example ex3_roots_definition :
-  get_hwires_roots ex3 SInside false pat_any ex3_u [RObj (QId 2)] = Some [[7; 6; 10; 14]; [8; 6; 10; 14]].
+  get_hwires_roots ex3 SInside false pat_any pat_any ex3_u [RObj (QId 2)] = Some [[7; 6; 10; 14]; [8; 6; 10; 14]].
 Proof. vm_compute. reflexivity. Qed.
 
 Example ex3_roots_library_recursive :
-  exists l, get_hwires_roots ex3 SInside true pat_any ex3_u [RObj (QId 1)] = Some l /\ length l = 4.
+  exists l, get_hwires_roots ex3 SInside true pat_any pat_any ex3_u [RObj (QId 1)] = Some l /\ length l = 4.
 Proof. eexists. split; [vm_compute; reflexivity|reflexivity]. Qed.
 
 (* an instance reference: OUTSIDE = the wires on its pins in the parent; ALL = both nets *)
 Example ex3_roots_href_outside :
-  get_hwires_roots ex3 SOutside false pat_any ex3_u [RHref [10; 14]] = Some [[12; 11; 14]; [13; 11; 14]].
+  get_hwires_roots ex3 SOutside false pat_any pat_any ex3_u [RHref [10; 14]] = Some [[12; 11; 14]; [13; 11; 14]].
 Proof. vm_compute. reflexivity. Qed.
 
 Example ex3_roots_href_all :
-  exists l, get_hwires_roots ex3 SAll false pat_any ex3_u [RHref [10; 14]] = Some l /\ length l = 4.
+  exists l, get_hwires_roots ex3 SAll false pat_any pat_any ex3_u [RHref [10; 14]] = Some l /\ length l = 4.
 Proof. eexists. split; [vm_compute; reflexivity|reflexivity]. Qed.
 
 (* a collection: the sub-instance reference, the netlist and a plain wire - each reference once *)
 Example ex3_roots_collection :
-  exists l, get_hwires_roots ex3 SInside true pat_any ex3_u [RHref [10; 14]; RObj (QId 0); RObj (QId 7)] = Some l /\
+  exists l, get_hwires_roots ex3 SInside true pat_any pat_any ex3_u [RHref [10; 14]; RObj (QId 0); RObj (QId 7)] = Some l /\
             length l = 4 /\ NoDup l.
 Proof.
   eexists. split; [vm_compute; reflexivity|]. split; [reflexivity|]. nodup_small.
 Qed.
 
 Example ex3_roots_cables_pins_ports :
-  get_hcables_roots ex3 SAll false pat_any ex3_u [RObj (QId 10)] = Some [[6; 10; 14]; [11; 14]] /\
-  get_hpins_roots ex3 true pat_any [RObj (QId 0)] = Some [[4; 3; 10; 14]; [5; 3; 10; 14]] /\
-  get_hports_roots ex3 false pat_any [RObj (QId 12); RObj (QId 9)] = Some [[3; 10; 14]].
+  get_hcables_roots ex3 SAll false pat_any pat_any ex3_u [RObj (QId 10)] = Some [[6; 10; 14]; [11; 14]] /\
+  get_hpins_roots ex3 true pat_any pat_any [RObj (QId 0)] = Some [[4; 3; 10; 14]; [5; 3; 10; 14]] /\
+  get_hports_roots ex3 false pat_any pat_any [RObj (QId 12); RObj (QId 9)] = Some [[3; 10; 14]].
 Proof. vm_compute. repeat split; reflexivity. Qed.
 
 (* the hypotheses of get_hwires_ALL_instance and of the union law hold on ex3 *)
@@ -386,13 +408,13 @@ Qed.
 (* ------------------------------------------------------------------------------------------ *)
 (* 5. the collection model restricted to one reference *)
 (* a single reference that is not an instance: the collection model is the single-reference model of
-   Hier/Trace.v, so every theorem of C12 about wire / pin / port / cable starts speaks about the
-   collection model as well *)
-Theorem get_hwires_entries_single : forall s x r pat usum bp obj,
+   Hier/Trace.v followed by the pattern test on the references found (fix 1630eaa), so every theorem
+   of C12 about wire / pin / port / cable starts speaks about the collection model as well *)
+Theorem get_hwires_entries_single : forall s x r pat dm usum bp obj,
   head_not_instance s obj ->
-  get_hwires_entries s x r pat usum [(bp, obj)] = get_hwires s x r usum obj.
+  get_hwires_entries s x r pat dm usum [(bp, obj)] = option_map (filter dm) (get_hwires s x r usum obj).
 Proof.
-  intros s x r pat usum bp obj Hn.
+  intros s x r pat dm usum bp obj Hn.
   unfold get_hwires_entries, get_hwires. cbn [collect]. unfold hw_entry.
   destruct (negb (is_valid s obj)).
   { cbn. reflexivity. }
@@ -401,33 +423,44 @@ Proof.
   cbn in Hn.
   destruct (kind_of s it) as [[]|]; try congruence; cbn [trip_app trip0 of_pair fst snd].
   all: try (cbn; reflexivity).
-  - rewrite !app_nil_r. destruct (hw_close s x _ _); reflexivity.
-  - destruct (fold_left _ _ _) as [y st]. cbn [fst snd]. rewrite !app_nil_r.
-    destruct (hw_close s x _ _); reflexivity.
-  - destruct (hw_phase1_wire s x (it :: rest)) as [y st]. cbn [fst snd]. rewrite !app_nil_r.
-    destruct (hw_close s x _ _); reflexivity.
+  all: try (destruct (fold_left _ _ _) as [y st]; cbn [fst snd]).
+  all: try (destruct (hw_phase1_wire s x (it :: rest)) as [y st]; cbn [fst snd]).
+  all: rewrite ?app_nil_r; cbn [app]; destruct (hw_close s x _ _); reflexivity.
 Qed.
 
-Theorem get_hwires_roots_href_single : forall s x r pat usum obj,
-  head_not_instance s obj ->
-  get_hwires_roots s x r pat usum [RHref obj] = get_hwires s x r usum obj.
+(* with patterns that select every name (the default "*"), equality *)
+Theorem get_hwires_entries_single_all : forall s x r pat dm usum bp obj,
+  head_not_instance s obj -> (forall h, dm h = true) ->
+  get_hwires_entries s x r pat dm usum [(bp, obj)] = get_hwires s x r usum obj.
 Proof.
-  intros s x r pat usum obj Hn. unfold get_hwires_roots, with_roots, expand_roots.
+  intros s x r pat dm usum bp obj Hn Hd. rewrite (get_hwires_entries_single _ _ _ _ _ _ _ _ Hn).
+  destruct (get_hwires s x r usum obj) as [l|]; [|reflexivity]. cbn [option_map].
+  rewrite filter_all_true; [reflexivity|]. intros h _. apply Hd.
+Qed.
+
+Theorem get_hwires_roots_href_single : forall s x r pat dpat usum obj,
+  head_not_instance s obj ->
+  get_hwires_roots s x r pat dpat usum [RHref obj]
+  = option_map (filter (direct_match s dpat [RHref obj])) (get_hwires s x r usum obj).
+Proof.
+  intros s x r pat dpat usum obj Hn. unfold get_hwires_roots, with_roots, expand_roots.
   cbn [rev app flat_opt fold_right expand_root].
   apply get_hwires_entries_single. exact Hn.
 Qed.
 
 (* ... for instance: selection ALL from a reference to a wire occurrence, searched as a collection of
-   one root, is its connectivity class (C12_all) *)
+   one root, is its connectivity class (C12_all) filtered by the patterns *)
 Theorem get_hwires_roots_ALL_wire : forall s t,
   Inv1a s -> Inv2a s -> WFk s -> WFc s -> is_root s t ->
-  forall n U pat x, acyclic s -> top s n = Some t -> all_hwires s n = Some U -> hwire_occ s t x ->
-  exists l, get_hwires_roots s SAll false pat (pin_weight s U) [RHref x] = Some l /\
-            (forall b, In b l <-> Conn.conn s t x b).
+  forall n U pat dpat x, acyclic s -> top s n = Some t -> all_hwires s n = Some U -> hwire_occ s t x ->
+  exists l, get_hwires_roots s SAll false pat dpat (pin_weight s U) [RHref x] = Some l /\
+            (forall b, In b l <-> Conn.conn s t x b /\ direct_match s dpat [RHref x] b = true).
 Proof.
-  intros s t I1 I2 K C Hroot n U pat x A Ht HU Hx.
+  intros s t I1 I2 K C Hroot n U pat dpat x A Ht HU Hx.
   rewrite get_hwires_roots_href_single.
-  - exact (get_hwires_ALL_class s t I1 I2 K C Hroot n U x A Ht HU Hx).
+  - destruct (get_hwires_ALL_class s t I1 I2 K C Hroot n U x A Ht HU Hx) as (l0 & E & S).
+    unfold get_hwires_ALL in E. rewrite E. cbn [option_map]. eexists. split; [reflexivity|].
+    intro b. rewrite filter_In, S. reflexivity.
   - destruct Hx as (w & c & y & p & -> & _ & _ & Hw). cbn.
     rewrite (wk_kids s K RWires c w Hw). cbn. discriminate.
 Qed.
@@ -519,8 +552,14 @@ Proof. vm_compute. reflexivity. Qed.
 (* ------------------------------------------------------------------------------------------ *)
 (* 7. an Instance given as a plain element (not recursive, INSIDE): the wires of its cell at every
       occurrence of the instance - the valid instance paths ending in it, below the top instance of
-      whichever netlist (C11_hrefs_of_instances) - each once. The patterns play no part (what the
-      code does: finding C13-K6). *)
+      whichever netlist (C11_hrefs_of_instances) - whose FULL name some pattern matches, each once
+      (since fix 1630eaa; before, the patterns played no part: finding C13-K6). *)
+(* one plain element searched: every reference found directly is tested under its full name *)
+Lemma direct_match_plain s dpat q h : direct_match s dpat [RObj q] h = name_ok s dpat (0, h).
+Proof.
+  unfold direct_match, rel_roots, direct_match_with, direct_names. cbn -[name_ok]. apply orb_false_r.
+Qed.
+
 Lemma collect_marked_inside s : forall occ,
   (forall p, In p occ -> is_valid s p = true /\ exists x r, p = x :: r /\ kind_of s x = Some KInstance) ->
   collect (hw_entry s SInside false) (mark true occ) = Some (flat_map (hwires_at s) occ, [], []).
@@ -532,12 +571,14 @@ Proof.
   cbn [option_map flat_map trip_app app]. rewrite app_nil_r. reflexivity.
 Qed.
 
-Theorem get_hwires_roots_instance_element : forall s x pat usum,
+Theorem get_hwires_roots_instance_element : forall s x pat dpat usum,
   Inv1a s -> Inv2a s -> WFk s -> acyclic s -> kind_of s x = Some KInstance ->
-  exists l, get_hwires_roots s SInside false pat usum [RObj (QId x)] = Some l /\ NoDup l /\
-    (forall h, In h l <-> exists p, (exists t, is_path s t p) /\ hd_error p = Some x /\ In h (hwires_at s p)).
+  exists l, get_hwires_roots s SInside false pat dpat usum [RObj (QId x)] = Some l /\ NoDup l /\
+    (forall h, In h l <->
+       (exists p, (exists t, is_path s t p) /\ hd_error p = Some x /\ In h (hwires_at s p)) /\
+       name_ok s dpat (0, h) = true).
 Proof.
-  intros s x pat usum I1 I2 K A Hk.
+  intros s x pat dpat usum I1 I2 K A Hk.
   destruct (HierOcc.hrefs_of_instances_spec s [x] I1 I2 K A) as (occ & Eo & _ & So).
   assert (Hocc : forall p, In p occ ->
             is_valid s p = true /\ exists y r, p = y :: r /\ kind_of s y = Some KInstance).
@@ -550,16 +591,18 @@ Proof.
   unfold get_hwires_entries. rewrite (collect_marked_inside s occ Hocc).
   unfold hw_close, close_fuel. cbn [wl_close length plus rev].
   eexists. split; [reflexivity|]. split; [apply finish_nodup, result_nodup|].
-  intro h. rewrite finish_In, result_In. cbn [nfirst filter map In]. rewrite in_flat_map. split.
-  - intros [[(p & Hp & Hh)|[]]|[]]. apply So in Hp as (Ht & Hx). exists p. split; [exact Ht|].
+  intro h. rewrite finish_In, result_In, direct_match_plain. cbn [nfirst filter map In].
+  rewrite in_flat_map. split.
+  - intros [([(p & Hp & Hh)|[]] & Hd)|[]]. split; [|exact Hd].
+    apply So in Hp as (Ht & Hx). exists p. split; [exact Ht|].
     split; [|exact Hh]. destruct Hx as (y & Hy & [<-|[]]). exact Hy.
-  - intros (p & Ht & Hx & Hh). left. left. exists p. split; [|exact Hh]. apply So. split; [exact Ht|].
-    exists x. split; [exact Hx|left; reflexivity].
+  - intros ((p & Ht & Hx & Hh) & Hd). left. split; [|exact Hd]. left. exists p. split; [|exact Hh].
+    apply So. split; [exact Ht|]. exists x. split; [exact Hx|left; reflexivity].
 Qed.
 
 Example ex3_instance_element_hypotheses :
   Inv1a ex3 /\ Inv2a ex3 /\ WFk ex3 /\ acyclic ex3 /\ kind_of ex3 10 = Some KInstance /\
-  get_hwires_roots ex3 SInside false pat_any ex3_u [RObj (QId 10)] = Some [[7; 6; 10; 14]; [8; 6; 10; 14]].
+  get_hwires_roots ex3 SInside false pat_any pat_any ex3_u [RObj (QId 10)] = Some [[7; 6; 10; 14]; [8; 6; 10; 14]].
 Proof.
   split; [exact ex3_inv1a|]. split; [exact ex3_inv2a|]. split; [exact ex3_wfk|].
   split; [exact ex3_acyclic|]. split; [reflexivity|vm_compute; reflexivity].
@@ -582,3 +625,4 @@ Print Assumptions pattern_loop_In.
 Print Assumptions pattern_loop_nodup.
 Print Assumptions get_ordered_elements.
 Print Assumptions get_hwires_roots_instance_element.
+Print Assumptions get_hwires_entries_single_all.
